@@ -121,7 +121,12 @@ def check(run, replay=None):
         for what in (("assign", "reduce", "general") if fp == "off" else ("assign",)):
             rc, so, se = C.sh("%s %s %s %d %s" % (exe, what, mode, seed, "all" if fp == "off" else "fxonly"), timeout=1800)
             lines = [l for l in so.split("\n") if l[:2] in ("A ", "R ", "G ")]
-            if rc != 0:
+            if rc != 0 and what == "general":
+                last = [l for l in so.split("\n") if l.startswith("P ")][-1:]
+                run.finding("crash:general:%s" % name, "counterexample",
+                            "vectorized evaluation crashes in the %s build on: %s (t = a + a or sum(a)): %s" % (name, last[0][2:] if last else "?", se[-200:]),
+                            {"case": "general", "build": name, "flags": fl, "statement": last, "stderr": se[-1500:]})
+            elif rc != 0:
                 run.finding("crash:%s:%s" % (what, name), "counterexample",
                             "%s sweep died in the %s build after %d statements (last: %s): %s" % (what, name, len(lines), lines[-1] if lines else "-", se[-300:]),
                             {"case": what, "build": name, "flags": fl, "after": lines[-1] if lines else "", "stderr": se[-1500:]})
